@@ -477,7 +477,7 @@ pub(crate) fn current_cancel_data() -> &'static Cancel {
 }
 
 #[inline]
-#[cfg(any(windows, feature = "io_cancel"))]
+#[cfg(windows)]
 pub(crate) fn co_cancel_data(co: &CoroutineImpl) -> &'static Cancel {
     let local = unsafe { &*get_co_local(co) };
     &local.get_co().inner.cancel
